@@ -178,6 +178,8 @@ class Check:
         self.findings = [f for f in load_findings() if f.get('property') == pid and f.get('status') == 'known']
         self.nrep = 0
         self.notes = {}
+        if not replay:
+            shutil.rmtree(os.path.join(VERIF, 'replays', pid), True)
 
     @property
     def quick(self):
@@ -186,7 +188,15 @@ class Check:
     def log(self, *a):
         print(f'[{self.pid} {time.time() - self.t0:6.1f}s]', *a, flush=True)
 
+    def want(self, part):
+        """development aid: VERIF_ONLY=substr[,substr] restricts a run to the parts whose name contains one of them
+        (evidence is then not written)"""
+        only = os.environ.get('VERIF_ONLY')
+        return not only or any(x in part for x in only.split(','))
+
     def select(self, part, cases):
+        if not self.want(part):
+            return []
         """in --replay mode only the recorded case of the recorded part runs"""
         if self.replay:
             rp = self.replay_case
@@ -231,7 +241,7 @@ class Check:
         self.tlc_cmds.append(res['cmd'])
         if res['error']:
             raise Machinery(f'TLC failed on {module} ({part}):\n{res["error"]}')
-        if res['distinct'] != expected_states:
+        if res['distinct'] != expected_states and not (res['verdicts'] and res['distinct'] < expected_states):
             raise Machinery(f'TLC explored {res["distinct"]} distinct states on {module} ({part}), a complete validation has {expected_states}\n{res["out"][-1500:]}')
         self.states += res['distinct']
         self.transitions += res['generated']
@@ -256,6 +266,8 @@ class Check:
 
     # --- design-level model checking
     def model(self, part, module, cfg, workers=None, timeout=3600, extra_args=(), expect_violation=None, min_states=2, files=None):
+        if not self.want(part) or self.replay:
+            return None
         res = run_tlc(module, cfg, None, workers=workers, timeout=timeout, extra_args=extra_args, tag=f'{self.pid}-{part}', files=files)
         self.tlc_cmds.append(res['cmd'])
         if expect_violation:
@@ -309,7 +321,7 @@ class Check:
             },
             'assumptions': self.assumptions, 'wall_s': round(wall, 1), 'violations': len(self.viol),
         }
-        if not self.replay:
+        if not self.replay and not os.environ.get('VERIF_ONLY'):
             os.makedirs(os.path.join(VERIF, 'evidence'), exist_ok=True)
             with open(os.path.join(VERIF, 'evidence', f'{self.pid}.json'), 'w') as fh:
                 json.dump(ev, fh, indent=1, default=str)
